@@ -179,6 +179,72 @@ def h_initial(cfg):
     obs('now', env.now)
 
 
+def h_abort(cfg):
+    """a run(until=...) that is left through the failure of a process (which run() must raise) leaves nothing behind: the
+    driver catches the failure and goes on with the next run(until=...), which stops where it was asked to"""
+    from onl.sim import Environment
+    traces = []
+    sort = cfg['sorts']
+    d = [sym_num('d%d' % i, sort, 0, None, True) for i in range(2)]
+    tb = sym_num('tb', sort, 0)
+    stops = cfg['stops']
+    for variant in ('single', 'split'):
+        env = Environment()
+        log = []
+
+        def ticker():
+            for k in range(3):
+                yield env.timeout(d[k % 2])
+                log.append(('tick', env.now))
+
+        def bad():
+            yield env.timeout(tb)
+            raise Boom(7)
+
+        env.process(ticker())
+        env.process(bad())
+        job = None
+        plan = [stops[-1]] if variant == 'single' else list(stops)
+        for c in plan:
+            for _ in range(3):
+                try:
+                    if c == 'proc':
+                        def work():
+                            yield env.timeout(sym_num('dw', sort, 0))
+                            return 'done'
+                        job = job or env.process(work())
+                        r = env.run(until=job)
+                        check('c03.until-event-value', r == 'done', repr(r))
+                    else:
+                        if not gt(c, env.now):
+                            break
+                        env.run(until=c)
+                        check('c03.until-now', eq(env.now, c), ('after an aborted run', c))
+                    break
+                except Boom:
+                    log.append(('failure', env.now))
+                    cover('run-left-by-a-failure')
+                except Exception as ex:  # noqa
+                    fail('no-raise', '%s: %s: %s' % (variant, type(ex).__name__, ex))
+                    return
+        for _ in range(3):
+            try:
+                env.run()
+                break
+            except Boom:
+                log.append(('failure', env.now))       # (the failure may also surface here; the run is continued all the same)
+            except Exception as ex:  # noqa
+                fail('no-raise', '%s: final run: %s: %s' % (variant, type(ex).__name__, ex))
+                return
+        traces.append(log)
+    a_, b_ = traces
+    check('c03.split-same-length', len(a_) == len(b_), ([x[0] for x in a_], [x[0] for x in b_]))
+    for x, y in zip(a_, b_):
+        check('c03.split-same-order', x[0] == y[0], (x[0], y[0]))
+        check('c03.split-same-times', eq(x[1], y[1]), x[0])
+    cover('nontrivial')
+
+
 def h_net(cfg):
     """network scenario generator -> port -> wire -> sink under a split plan"""
     from onl.sim import Environment
@@ -486,7 +552,7 @@ def h_hubnet(cfg):
     cover('nontrivial')
 
 
-HARNESSES = {'hubnet': h_hubnet, 'untilev': h_untilev, 'split': h_split, 'initial': h_initial, 'net': h_net, 'netmon': h_netmon}
+HARNESSES = {'abort': h_abort, 'hubnet': h_hubnet, 'untilev': h_untilev, 'split': h_split, 'initial': h_initial, 'net': h_net, 'netmon': h_netmon}
 
 PLANS = [
     [['until', 1]], [['until', 2], ['until', 3]], [['step', 1], ['until', 2]], [['step', 3]],
@@ -523,6 +589,8 @@ def jobs(tier, seed):
     for plan in ([['until', 1], ['until', 2]], [['step', 2], ['until', 3]], [['until', 2], ['step', 3]]):
         js.append({'harness': 'net', 'cfg': {'n': 2, 'sorts': 'int', 'plan': plan}, 'weight': 300})
     js.append({'harness': 'hubnet', 'cfg': {'names': ['alpha', 'bravo', 'charlie', 'delta-4', 'e'], 'n': 2}, 'weight': 5})
+    for stops in ([2, 4], [2, 'proc'], [1, 2, 5]):
+        js.append({'harness': 'abort', 'cfg': {'stops': stops, 'sorts': 'int'}, 'weight': 30})
     for what in ('and', 'or', 'fail', 'excvalue'):
         for sorts in ('int', 'real'):
             js.append({'harness': 'untilev', 'cfg': {'what': what, 'sorts': sorts}, 'weight': 20})
